@@ -137,7 +137,7 @@ def execute_stack(case):
         world.advance(1000)
         # every bundle on every hop, from the wire
         seen_on_hop = {}
-        for xfer in world.transfers() + world.udp_bundles():
+        for xfer in world.transfers() + world.udp_bundles() + world.btpu_bundles():
             if not xfer['complete']:
                 out.label('incomplete-transfer')
                 continue
